@@ -19,6 +19,7 @@ var probeMessages = map[string]string{
 	"Retrying rpc call":                            "probe:rpc-retry",
 	"Removed dead client":                          "probe:rpc-dead-client",
 	"Released cache":                               "probe:cache-released",
+	"orphan rescue":                                "probe:orphan-rescue",
 }
 
 type probeHook struct{}
